@@ -239,7 +239,7 @@ func (w *World) Apply(line string) (final string, result string) {
 		}
 		w.Events = append(w.Events[:i:i], w.Events[i+1:]...)
 		return line, "ok"
-	case f[0] == "filter" && len(f) == 7:
+	case (f[0] == "filter" || f[0] == "preempt") && len(f) == 7:
 		return w.applyFilter(f)
 	case f[0] == "bind" && len(f) == 9:
 		return w.applyBind(f)
@@ -509,7 +509,23 @@ func (w *World) applyFilter(f []string) (string, string) {
 	var passed []corev1.Node
 	var err error
 	crashed := false
-	if o := guard(func() { passed, _, err = w.Plugin.Filter(pod, nodes) }); o == "crashed" {
+	if o := guard(func() {
+		if f[0] == "preempt" {
+			// Preempt answers with the candidate nodes it keeps (no error return: on an error every node stays)
+			victims := map[string]*schedulerapi.MetaVictims{}
+			for _, n := range nodes {
+				victims[n.Name] = &schedulerapi.MetaVictims{}
+			}
+			kept := w.Plugin.Preempt(&schedulerapi.ExtenderPreemptionArgs{Pod: pod, NodeNameToMetaVictims: victims})
+			for _, n := range nodes {
+				if _, ok := kept[n.Name]; ok {
+					passed = append(passed, n)
+				}
+			}
+			return
+		}
+		passed, _, err = w.Plugin.Filter(pod, nodes)
+	}); o == "crashed" {
 		crashed = true
 	} else if o != "ok" {
 		return strings.Join(f, " "), o
